@@ -351,6 +351,9 @@ pub fn run(tier: Tier) -> i32 {
         Tier::Quick => vec![("two", "2", 60), ("two-short", "3", 60), ("handoff", "2", 60), ("two-nosuspend", "3", 60)],
         Tier::Thorough => vec![("two", "6", 900), ("two-short", "none", 900), ("handoff", "6", 900), ("two-nosuspend", "6", 900), ("three", "1", 900)],
     };
+    rep.bound("loom_scenarios", scenarios.iter().map(|(s, b, _)| format!("{s} (preemption bound {b})")).collect::<Vec<_>>());
+    rep.bound("migration_rounds_per_suspension_point", tier.pick(20, 200));
+    rep.bound("stress_rounds_non_deciding", tier.pick(300, 3000));
     let mut schedules = 0u64;
     let mut sync_ops = 0u64;
     let mut covered = Vec::new();
